@@ -114,19 +114,43 @@ def r1_metrics(ctx):
 def r2_directions(ctx):
     repo = ctx.repo
     pp = repo.method(result_cls(repo), 'path_properties', 'getter')
-    ifs = [n for n in pp.node.body if isinstance(n, ast.If)]
+    # which key of the returned dict receives which value under which condition (dict literal in one piece, per arm, or filled
+    # key by key: all read as (condition, key, value) events)
+    from .common import holds_at, through_locals
     ok = False
     det = ''
-    if len(ifs) == 1 and ast.unparse(ifs[0].test) == 'self.path_request.bidir':
-        def block(stmts):
-            d = next((s.value for s in stmts if isinstance(s, ast.Assign) and isinstance(s.value, ast.Dict)), None)
-            return {k.value: ast.unparse(v) for k, v in zip(d.keys, d.values)} if d is not None else {}
-        a, b = block(ifs[0].body), block(ifs[0].orelse)
-        det = f'{a} / {b}'
-        ok = a == {'path-metric': 'path_metric(self.computed_path, self.path_request)',
-                   'z-a-path-metric': 'path_metric(self.reversed_computed_path, self.path_request)',
-                   'path-route-objects': 'self.detailed_path_json'} and \
-            b == {'path-metric': 'path_metric(self.computed_path, self.path_request)', 'path-route-objects': 'self.detailed_path_json'}
+    pdefs = local_defs(pp.node)
+    rets = [n for n in pp.node.body if isinstance(n, ast.Return)]
+    dn = rets[-1].value.id if rets and isinstance(rets[-1].value, ast.Name) else None
+    events = {}
+    BID = 'self.path_request.bidir'
+    for n in walk_no_nested(pp.node):
+        if not isinstance(n, ast.Assign) or dn is None:
+            continue
+        conds = set()
+        for c in holds_at(n):
+            try:
+                conds.add(ast.unparse(through_locals(ast.parse(c, mode='eval').body, pdefs)))
+            except SyntaxError:
+                conds.add(c)
+        pol = True if BID in conds else (False if f'not {BID}' in conds else None)
+        if isinstance(n.targets[0], ast.Name) and n.targets[0].id == dn and isinstance(n.value, ast.Dict):
+            for k, v in zip(n.value.keys, n.value.values):
+                if isinstance(k, ast.Constant):
+                    events.setdefault(k.value, []).append((pol, ast.unparse(v)))
+        elif isinstance(n.targets[0], ast.Subscript) and isinstance(n.targets[0].value, ast.Name) and n.targets[0].value.id == dn and \
+                isinstance(n.targets[0].slice, ast.Constant):
+            events.setdefault(n.targets[0].slice.value, []).append((pol, ast.unparse(v := n.value)))
+    det = str(events)
+
+    def always(k, val):
+        ev_ = events.get(k, [])
+        return bool(ev_) and all(v == val for _, v in ev_) and sorted(str(p_) for p_, _ in ev_) in (['None'], ['False', 'True'])
+    za = events.get('z-a-path-metric', [])
+    ok = set(events) == {'path-metric', 'z-a-path-metric', 'path-route-objects'} and \
+        always('path-metric', 'path_metric(self.computed_path, self.path_request)') and \
+        always('path-route-objects', 'self.detailed_path_json') and \
+        za == [(True, 'path_metric(self.reversed_computed_path, self.path_request)')]
     ctx.check('R2.directions', site(pp), ok, key(pp, 'directions'),
               "the forward metrics are not computed from computed_path and the 'z-a-path-metric' from reversed_computed_path exactly for "
               'bidirectional requests', det[:300])
